@@ -6,6 +6,8 @@ Monitor 2 order independence: the same plan under k permutations of block instan
           creation order; all wire values by full path must agree after construction and after every cycle.
 Monitor 3 schedule: sim.propagatables must be a topological order of the dependency graph recomputed from the
           plan / from the leaves' own port lists (never from Wire.sinks / Wire.source).
+Monitor 5 several systems: k HWSystems alive in one process, their build (with an early getSimulator()) / extend / getSimulator() /
+          clk steps interleaved by a random merge; monitors 1 and 3 judge the system that made the step.
 Monitor 4 rejection: getSimulator() must raise exactly for the netlists whose recomputed graph has a cycle
           (cycles through a Reg are legal and must be accepted).
 """
@@ -19,7 +21,7 @@ RULE = ('random netlist plans from the block catalogue (3-40 blocks = 5-250 leav
         'each instantiated under identity/reverse/random permutations of block order and of wire order (all n! for n <= 5 blocks), '
         'designs with gated clock domains (wrappers whose ClockDriver enable is a poked input, a toggling register or a delayed input, holding registers and '
         'combinational leaves fed from outside and inside the domain), reversed/shuffled inverter chains of 50-400 leaves, size classes (chains of 1001-2500 leaves and layered netlists of 3300 leaves with combinational paths deeper than 1000 leaves, in dataflow / reversed / locally shuffled / shuffled order), and plans with one injected loop (self, 2, n, through a wrapper, '
-        'rewired back edge, behind a sorted prefix; through a Reg = legal); the simulator is created through getSimulator(), directly with Simulator(sys), by a Scope constructor or by a repeated getSimulator(), and clock calls are clk(n) with n = 0, 1, 2-5, 17-40, further handles (Simulator(sys), Scope, getSimulator) are taken on the live simulator between calls while the first handle stays in use, a third of the DAGs contain run-time AbstractLogic instances whose propagate() is bound to the instance next to behaviour-less instances of the same class; a case is (plan, block order, wire order, creation mode); '
+        'rewired back edge, behind a sorted prefix; through a Reg = legal); the simulator is created through getSimulator(), directly with Simulator(sys), by a Scope constructor or by a repeated getSimulator(), and clock calls are clk(n) with n = 0, 1, 2-5, 17-40, further handles (Simulator(sys), Scope, getSimulator) are taken on the live simulator between calls while the first handle stays in use, a third of the DAGs contain run-time AbstractLogic instances whose propagate() is bound to the instance next to behaviour-less instances of the same class; groups of 2-4 systems alive in one process whose construction (with an early getSimulator()), extension with further blocks, getSimulator() and clk steps are interleaved by a random merge, each system judged by the fixpoint and schedule monitors after its own steps; a case is (plan, block order, wire order, creation mode); '
         'non-trivial = the initial leaf list of that order is not already topological (>= 1 inverted dependency edge) '
         'or the plan is cyclic; distinct by content hash of (plan, orders)')
 SHARDS = {'quick': 1, 'thorough': 16}
@@ -378,6 +380,155 @@ def check_cyclic(run, base, rnd, kind, stats, meta):
             break
 
 
+# --------------------------------------------------------------------------- Monitor 5: several systems alive in one process
+
+EXT_KINDS = ('Not', 'Buf', 'And2', 'Or2', 'Xor2', 'Reg')
+
+
+def gen_extension(rnd, pool, n, tag):
+    """n blocks added to a live system: each reads wires of the design (or of an earlier extension) and drives a new wire.
+    pool: list of [ref, width], ref = ['plan', wire id] | ['ext', name]; grows with the new wires."""
+    spec = []
+    for k in range(n):
+        kind = rnd.choice(EXT_KINDS)
+        a = rnd.choice(pool[-6:] if rnd.random() < 0.6 else pool)
+        ins = [a[0]]
+        if kind in ('And2', 'Or2', 'Xor2'):
+            same = [x for x in pool if x[1] == a[1]]
+            ins.append(rnd.choice(same)[0])
+        name = '%s_%d' % (tag, k)
+        spec.append(dict(kind=kind, ins=ins, out=name, width=a[1]))
+        pool.append([['ext', name], a[1]])
+    return spec
+
+
+def apply_extension(b, extw, spec):
+    import py4hw
+    def ref(r):
+        return b.W[r[1]] if r[0] == 'plan' else extw[r[1]]
+    with muted():
+        for x in spec:
+            w = b.hw.wire('x' + x['out'], x['width'])
+            extw[x['out']] = w
+            ins = [ref(r) for r in x['ins']]
+            getattr(py4hw, x['kind'])(b.hw, 'xb' + x['out'], *(ins + [w]))
+
+
+def gen_group(rnd, k, tier):
+    """k systems, each with its own step list (build [with an early getSimulator() after `late` blocks], then rounds of
+    sort / clk / extend, every extension followed by a sort before the next clk), and a random merge of the k lists"""
+    systems = []
+    for s in range(k):
+        plan = netgen.gen_dag(rnd, rnd.randint(3, 9), prim_only=(rnd.random() < 0.5), n_regs=rnd.randint(0, 2), n_boxes=rnd.randint(0, 1), max_leaves=10, tier=tier)
+        bids = [x['id'] for x in plan['blocks']]
+        bo = list(bids)
+        if rnd.random() < 0.5:
+            rnd.shuffle(bo)
+        late = rnd.randint(1, len(bids) - 1) if len(bids) >= 2 and rnd.random() < 0.5 else None
+        ws = {w['id']: w['w'] for w in plan['wires']}
+        pool = [[['plan', w['id']], w['w']] for w in plan['wires'] if not w.get('bidir')]
+
+        def clk():
+            return dict(op='clk', vals={i: rnd.getrandbits(ws[i]) for i in plan['inputs']}, n=rnd.choice([1, 1, 1, 0, rnd.randint(2, 4)]))
+        steps = [dict(op='build')]
+        for r in range(rnd.randint(1, 3)):
+            steps.append(dict(op='sort'))
+            steps += [clk() for _ in range(rnd.randint(0, 2))]
+            if pool:
+                steps.append(dict(op='extend', spec=gen_extension(rnd, pool, rnd.randint(1, 3), 's%dr%d' % (s, r))))
+        steps.append(dict(op='sort'))
+        steps += [clk() for _ in range(rnd.randint(1, 2))]
+        systems.append(dict(plan=plan, block_order=bo, late=late, steps=steps))
+    merge = [s for s in range(k) for _ in systems[s]['steps']]
+    rnd.shuffle(merge)
+    return systems, merge
+
+
+def run_interleaved(run, systems, merge, stats, meta):
+    """executes the merged step lists; after every sort the schedule monitor and after every clk the fixpoint monitor judge
+    the system that made the step (leaves recomputed from the live design).  Returns the number of deciding events: clk
+    calls on a system whose pending extension was sorted after ANOTHER system had been sorted in between."""
+    case = dict(mode='multi', systems=systems, merge=merge, meta=meta)
+    st = [dict(b=None, sim=None, pos=0, dirty_since=None, foreign=False, extw={}, judged_foreign=False) for _ in systems]
+    kinds = stats.setdefault('multi_steps', {})
+    deciding = 0
+    tick = [0]
+    sorts = []          # (tick, system) of every sort that had something to sort
+
+    def note_sort(s, had_work):
+        if had_work:
+            sorts.append((tick[0], s))
+
+    with hooks.install(keep_events=False):
+        for s in merge:
+            tick[0] += 1
+            S = st[s]
+            spec = systems[s]
+            step = spec['steps'][S['pos']]
+            S['pos'] += 1
+            op = step['op']
+            kinds[op] = kinds.get(op, 0) + 1
+            where = dict(system=s, step=S['pos'] - 1, op=op)
+            try:
+                if op == 'build':
+                    plan = spec['plan']
+                    early = []
+
+                    def on_pause(bb):
+                        try:
+                            with muted():
+                                bb.hw.getSimulator()
+                            note_sort(s, True)
+                        except Exception as e:
+                            early.append(e)
+                    S['b'] = netgen.build(plan, spec['block_order'], None, pause_at=spec['late'], on_pause=on_pause if spec['late'] is not None else None)
+                    if early:
+                        raise early[0]
+                    S['dirty_since'] = tick[0]
+                    S['plan_outs'] = {id(S['b'].B[x['id']]): [S['b'].W[w] for w in x['outs']] for x in plan['blocks'] if x.get('prim') and x['kind'] != 'cat' and x['id'] in S['b'].B}
+                elif op == 'extend':
+                    apply_extension(S['b'], S['extw'], step['spec'])
+                    stats['multi_blocks_added_to_live_system'] = stats.get('multi_blocks_added_to_live_system', 0) + len(step['spec'])
+                    if S['dirty_since'] is None:
+                        S['dirty_since'] = tick[0]
+                elif op == 'sort':
+                    b = S['b']
+                    had_work = S['dirty_since'] is not None
+                    foreign = had_work and any(t > S['dirty_since'] and o != s for t, o in sorts)
+                    with muted():
+                        S['sim'] = b.hw.getSimulator()
+                    note_sort(s, had_work)
+                    S['dirty_since'] = None
+                    if had_work:
+                        S['foreign'] = foreign
+                    if foreign:
+                        stats['multi_resorts_after_a_foreign_sort'] = stats.get('multi_resorts_after_a_foreign_sort', 0) + 1
+                    leaves, succ = netgen.leaf_graph(b.hw)
+                    if not netgen.comb_cycles(b.hw):
+                        schedule_check(run, b, S['sim'], leaves, succ, dict(case, at=where), stats)
+                else:
+                    b = S['b']
+                    b.poke(step['vals'])
+                    with muted():
+                        S['sim'].clk(step['n'])
+                    leaves, succ = netgen.leaf_graph(b.hw)
+                    stats['multi_clk_calls_judged'] = stats.get('multi_clk_calls_judged', 0) + 1
+                    if S['foreign']:
+                        deciding += 1
+                        stats['multi_clk_calls_judged_after_foreign_sort'] = stats.get('multi_clk_calls_judged_after_foreign_sort', 0) + 1
+                    fixpoint_check(run, S['sim'], 'after_clk', dict(case, at=where), stats, leaves,
+                                   extra=dict(systems='several', resorted_after_foreign_sort=bool(S['foreign'])), plan_outs=S['plan_outs'])
+            except Exception as e:
+                run.ev()
+                run.violation('sim_raises' if op == 'clk' else 'acyclic_refused' if op == 'sort' else 'legal_netlist_does_not_build',
+                              dict(exc=type(e).__name__, systems='several', op=op), dict(case, at=where), observed=repr(e)[:200],
+                              what='system %d of %d, step %d (%s) raises %r' % (s, len(systems), S['pos'] - 1, op, e))
+                break
+            if run.too_many:
+                break
+    return deciding
+
+
 # --------------------------------------------------------------------------- workload
 
 def run_check(run, tier, seed, shard):
@@ -428,6 +579,23 @@ def run_check(run, tier, seed, shard):
         if stats['gated_plans'] in (1, 9):
             run.sample(dict(kind='gated', index=i, blocks=len(plan['blocks']), gated_scopes=plan['gated'],
                             clocks=[s['clock'] for s in plan['scopes'] if s.get('clock')]))
+
+    # 1c. several HWSystems alive in one process, their construction / extension / getSimulator() / clk steps interleaved
+    n_groups = 70 if quick else 2400
+    for i in shard_slice(range(n_groups), shard):
+        if time.time() > deadline or run.too_many:
+            stats['multi_skipped_time'] = stats.get('multi_skipped_time', 0) + 1
+            continue
+        rnd = rng(seed, 'C04', 'multi', i)
+        k = 2 + i % 3
+        systems, merge = gen_group(rnd, k, tier)
+        dec = run_interleaved(run, systems, merge, stats, dict(kind='multi', index=i, k=k))
+        stats['multi_groups'] = stats.get('multi_groups', 0) + 1
+        stats['multi_systems'] = stats.get('multi_systems', 0) + k
+        if dec:
+            run.nt(stable_hash(['multi', [netgen.plan_hash(x['plan']) for x in systems], merge]))
+        if stats['multi_groups'] in (1, 5):
+            run.sample(dict(kind='multi', index=i, systems=k, steps=[[t['op'] for t in x['steps']] for x in systems], merge=merge, deciding_clk_calls=dec))
 
     # 2. inverter chains in reverse / random order (many-pass regime of the sorter)
     lengths = [50, 173, 400] if quick else [50, 64, 100, 173, 256, 300, 400, 333, 77, 128, 200, 350, 90, 150, 222, 380]
@@ -518,6 +686,7 @@ def run_check(run, tier, seed, shard):
             run.sample(dict(kind='cyclic', fault=kind, base_blocks=len(base['blocks'])))
 
     rej = stats.pop('rejection', {})
+    run.extra['multi_system_steps_by_kind'] = stats.pop('multi_steps', {})
     for k, v in stats.items():
         if k.startswith('max_'):
             run.extra[k + '_by_shard'] = {str(shard[0] if shard else 0): v}
@@ -548,6 +717,13 @@ def post_merge(run, tier, seed):
         run.inconclusive.append('no netlist of more than 1000 leaves was built')
     if not c.get('fixpoint_checks_in_gated_off_domain'):
         run.inconclusive.append('no fixpoint check was made on a leaf of a gated-off clock domain')
+    for k, why in (('multi_groups', 'no group of several live systems was run'), ('multi_blocks_added_to_live_system', 'no block was added to a live system'),
+                   ('multi_resorts_after_a_foreign_sort', 'no extended system was sorted again after another system had been sorted in between'),
+                   ('multi_clk_calls_judged_after_foreign_sort', 'no clk() of a system extended and re-sorted around the sort of another system was judged')):
+        if not c.get(k):
+            run.inconclusive.append(why)
+    if c.get('multi_skipped_time'):
+        run.inconclusive.append('watchdog: %d multi-system groups skipped' % c['multi_skipped_time'])
     if c.get('gated_skipped_time'):
         run.inconclusive.append('watchdog: %d gated-domain cases skipped' % c['gated_skipped_time'])
     if c.get('dags_skipped_time') or c.get('cyclic_skipped_time'):
@@ -556,6 +732,16 @@ def post_merge(run, tier, seed):
 
 def replay(run, case):
     c = netgen.dehex(case['case'])
+    if c.get('mode') == 'multi':
+        stats = {}
+        n0 = len(run.violations) + sum(v[1] for v in run.known_hits.values())
+        run_interleaved(run, c['systems'], c['merge'], stats, c.get('meta', {}))
+        for v in run.violations:
+            print('replay:', v['key'], v['what'])
+        bad = len(run.violations) + sum(v[1] for v in run.known_hits.values()) > n0
+        if bad:
+            print('VIOLATION property=C04 replay=replayed')
+        return 1 if bad else 0
     plan = c['plan']
     stats = {}
     bids = [b['id'] for b in plan['blocks']]
